@@ -95,6 +95,17 @@ def distreg():
     return b.build_model()
 
 
+def both_flags():
+    """a variable flagged observed AND parameter: its log-density belongs to both the log-likelihood and the log-prior (the flags are independent)"""
+    import liesel.model as lsl
+    tfd, tfb = _tf()
+    mu = lsl.param(0.4, lsl.Dist(tfd.Normal, loc=0.0, scale=lsl.Var(2.0, name="mu_scale")), name="mu")
+    z = lsl.obs(jnp.array([0.3, -0.6]), lsl.Dist(tfd.Normal, loc=mu, scale=lsl.Var(1.5, name="z_scale")), name="z")
+    z.parameter = True
+    y = lsl.obs(jnp.array([0.1, 0.9]), lsl.Dist(tfd.Normal, loc=z, scale=lsl.Var(0.7, name="y_scale")), name="y")
+    return lsl.GraphBuilder().add(y).build_model()
+
+
 def user_totals():
     """user-supplied replacement nodes for all three totals"""
     import liesel.model as lsl
@@ -157,6 +168,7 @@ FAMILY = {
     "weak-hierarchy": weak_hierarchy,
     "dist-without-var": dist_without_var,
     "neither-observed-nor-parameter": neither_flag,
+    "observed-and-parameter": both_flags,
     "degenerate-mvn-prior": mvnd_prior,
     "DistRegBuilder(np+p smooth)": distreg,
     "user-supplied totals": user_totals,
